@@ -34,7 +34,7 @@ using namespace asl;
 using vf::fmt;
 
 static int C_EVAL, C_DISTINCT;
-static int W_NOEOL, W_NOEOL_ENTRY_LAST, W_CRLF, W_NEWSEC, W_NEWKEY, W_CHANGED, W_SAMEVAL, W_BARE_TOP, W_BARE_SEC, W_REWRITTEN, W_NOTREWRITTEN, W_UNTOUCHED, W_COMMENTS,
+static int W_NOEOL, W_NOEOL_ENTRY_LAST, W_CRLF, W_NEWSEC, W_NEWKEY, W_CHANGED, W_SAMEVAL, W_BARE, W_BARE_TOP, W_BARE_SEC, W_REWRITTEN, W_NOTREWRITTEN, W_UNTOUCHED, W_COMMENTS,
 	W_DUPSEC, W_EXPLICIT, W_MIDWRITE, W_SETCHECKS, W_TOPKEYS, W_LONGHIST, W_INDENTED, W_EMPTYVAL, W_VALEQ, W_COMMENTEQ, W_INDENTCOMMENT, W_DUPKEYDIFF, W_TWOSECDIFF,
 	W_OTHERPATH, W_NOAUTO, W_VIAINDEX, W_VIAINDEX_CHANGED, W_MANYLINES, W_GROWLINES, W_LONGLINE, W_STRUCT5;
 static int W_CSV_QUOTED, W_CSV_NUM, W_CSV_EMPTY, W_CSV_ARRAY, W_CSV_CELLWISE, W_CSV_BIG, W_CSV_CELLS, W_CSV_SEMI, W_CSV_BYNAME,
@@ -124,7 +124,8 @@ static std::vector<std::string> order_tokens(const Ref& r, const std::set<SK>& t
 	std::vector<std::string> o;
 	for (size_t i = 0; i < r.toks.size(); i++) {
 		const Tok& t = r.toks[i];
-		if (t.kind == 'C') o.push_back(t.raw.size() <= 40 ? "comment '" + t.raw + "'" : "comment '" + t.raw.substr(0, 20) + fmt("...' (%d characters, hash %016llx)", (int)t.raw.size(), (unsigned long long)vf::hash128(t.raw).a));
+		// a comment line is identified by its text: the statement fixes the relative order of the comment lines, not their indentation or trailing blanks
+		if (t.kind == 'C') { std::string ct = trim(t.raw); o.push_back(ct.size() <= 40 ? "comment '" + ct + "'" : "comment '" + ct.substr(0, 20) + fmt("...' (%d characters, hash %016llx)", (int)ct.size(), (unsigned long long)vf::hash128(ct).a)); }
 		else if (t.kind == 'E' && !touched.count(SK(t.sec, t.key))) o.push_back("entry " + (t.sec.empty() ? t.key : t.sec + "/" + t.key));
 	}
 	return o;
@@ -214,12 +215,37 @@ struct IniCheck {
 	std::map<SK, std::string> model;
 	std::set<SK> touched;
 	std::vector<std::string> setnames;
-	std::string bareSec;
+	std::map<std::string, std::string> bareSecOf; // bare name -> the section it addressed when it was set ("" = the entries before the first header)
+	IniFile* shadow;
 	bool failed;
-	IniCheck(const IniCase& cc) : c(cc), failed(false) {}
-	SK resolve(const std::string& name) const {
+	IniCheck(const IniCase& cc) : c(cc), shadow(0), failed(false) {}
+	~IniCheck() { delete shadow; }
+	// Which section a name without '/' addresses ("the current section" of the class documentation) is a rule of the library, not of the statement: the
+	// statement only demands that a fresh IniFile returns the value under the name used in set(). So the rule is not modelled but asked of the library: a
+	// shadow IniFile(path, false) (never written) on the same text receives the same set() calls; before a bare name is set, it is set to a sentinel there and
+	// the sentinel is looked up under every section name of the text and of the earlier set() calls; found under none of them = the entries before the first header.
+	SK resolve(const std::string& name) {
 		size_t s = name.find('/');
-		return s == std::string::npos ? SK(bareSec, name) : SK(name.substr(0, s), name.substr(s + 1));
+		if (s != std::string::npos) return SK(name.substr(0, s), name.substr(s + 1));
+		std::map<std::string, std::string>::const_iterator it = bareSecOf.find(name);
+		return SK(it == bareSecOf.end() ? std::string() : it->second, name);
+	}
+	void shadow_set(const std::string& name, const std::string& val) {
+		if (!shadow) return;
+		if (name.find('/') == std::string::npos) {
+			static const char SENTINEL[] = "\x01sentinel";
+			shadow->set(vfx::A(name), vfx::A(SENTINEL));
+			const IniFile& cs = *shadow;
+			std::set<std::string> secs;
+			for (size_t j = 0; j < ref0.toks.size(); j++) if (ref0.toks[j].kind == 'S') secs.insert(ref0.toks[j].sec);
+			for (std::map<SK, std::string>::const_iterator it = model.begin(); it != model.end(); ++it) if (!it->first.first.empty()) secs.insert(it->first.first);
+			std::string found; int nfound = 0;
+			for (std::set<std::string>::const_iterator it = secs.begin(); it != secs.end(); ++it)
+				if (vfx::S(cs[vfx::A(*it + "/" + name)]) == SENTINEL) { found = *it; nfound++; }
+			if (nfound > 1) bad("bare_name_ambiguous", "set(\"" + name + "\") changed the entry of that name in more than one section");
+			bareSecOf[name] = found;
+		}
+		shadow->set(vfx::A(name), vfx::A(val));
 	}
 	void bad(const std::string& sig, const std::string& desc) {
 		failed = true;
@@ -271,8 +297,8 @@ struct IniCheck {
 		if (c.other) remove(opath.c_str());
 		ref0 = ref_parse(text);
 		model = ref0.vals;
-		// a name without '/' addresses the "current section": the entries before the first header if there are any, else the first section
-		bareSec = ref0.topKeys ? std::string() : ref0.hasFirst ? ref0.first : std::string();
+		for (size_t i = 0; i < c.ops.size() && !shadow; i++)
+			if (!strchr(op_name(c.ops[i]), '/')) shadow = new IniFile(vfx::A(path), false); // see resolve()
 		bool lastIsEntry = !ref0.toks.empty() && ref0.toks.back().kind == 'E';
 		if (!c.finalnl && !text.empty()) { vf::add(W_NOEOL); sfx = "_noeol"; if (lastIsEntry) vf::add(W_NOEOL_ENTRY_LAST); }
 		if (c.noauto) sfx += "_noautosave";
@@ -313,8 +339,9 @@ struct IniCheck {
 				}
 				if (i == c.ops.size()) break;
 				std::string name = op_name(c.ops[i]), val = op_val(c.ops[i]);
+				shadow_set(name, val);
 				SK k = resolve(name);
-				if (name.find('/') == std::string::npos) vf::add(k.first.empty() ? W_BARE_TOP : W_BARE_SEC);
+				if (name.find('/') == std::string::npos) { vf::add(W_BARE); vf::add(k.first.empty() ? W_BARE_TOP : W_BARE_SEC); }
 				if (val.empty()) vf::add(W_EMPTYVAL);
 				if (!model.count(k)) {
 					bool secExists = k.first.empty();
@@ -885,7 +912,9 @@ int main(int argc, char** argv) {
 	C_EVAL = vf::counter("evaluations"); C_DISTINCT = vf::counter("distinct_nontrivial"); C_UNLISTED = vf::counter("failing_cases_beyond_the_8_listed_per_signature");
 	W_NOEOL = vf::counter("w.ini_text_without_final_newline"); W_NOEOL_ENTRY_LAST = vf::counter("w.ini_last_line_is_entry_without_newline"); W_CRLF = vf::counter("w.ini_crlf_text");
 	W_NEWSEC = vf::counter("w.ini_set_creates_section"); W_NEWKEY = vf::counter("w.ini_set_adds_key_to_existing_section"); W_CHANGED = vf::counter("w.ini_set_changes_existing_value");
-	W_SAMEVAL = vf::counter("w.ini_set_same_value"); W_BARE_TOP = vf::counter("w.ini_bare_name_to_top_level"); W_BARE_SEC = vf::counter("w.ini_bare_name_to_first_section");
+	W_SAMEVAL = vf::counter("w.ini_set_same_value"); W_BARE = vf::counter("w.ini_set_under_bare_name");
+	// where the library puts a bare name is its own rule (see IniCheck::resolve): counted for information, not as witnesses that must be non-zero
+	W_BARE_TOP = vf::counter("lib.ini_bare_name_addressed_top_level"); W_BARE_SEC = vf::counter("lib.ini_bare_name_addressed_a_section");
 	W_REWRITTEN = vf::counter("w.ini_file_rewritten"); W_NOTREWRITTEN = vf::counter("w.ini_file_left_alone"); W_UNTOUCHED = vf::counter("w.ini_untouched_values_checked");
 	W_COMMENTS = vf::counter("w.ini_comment_lines_checked"); W_SETCHECKS = vf::counter("w.ini_set_values_checked"); W_DUPSEC = vf::counter("w.ini_repeated_section_header");
 	W_EXPLICIT = vf::counter("w.ini_explicit_write"); W_MIDWRITE = vf::counter("w.ini_write_then_more_sets"); W_TOPKEYS = vf::counter("w.ini_entries_before_first_header");
